@@ -578,6 +578,10 @@ pub struct Ctx {
     pub ledger_violations: Vec<String>,
     /// C02: a key of one type answered a query for another type
     pub key_violations: Vec<String>,
+    /// C10: an entry whose type opts out of hot-reloading (behind a wrapper) was rewritten
+    pub wrapper_violations: Vec<String>,
+    /// rounds of the wrapper scenario in which witness and control followed the edit
+    pub wrapper_rounds: u64,
     pub ident: Identity,
     pub watchers: HashMap<u64, assets_manager::ReloadWatcher<'static>>,
     /// the Coq text of the pass order observed during the last op that takes one
@@ -1391,6 +1395,98 @@ fn key_sweep(trials: u64, ctx: &mut Ctx) {
     trace_enable(true);
 }
 
+/// C10 through the wrapper types of the crate: `Arc<U>`, `OnceInitCell<U, T>` and
+/// `OnceInitCell<Option<U>, T>` take the reloadability of `U`.  All are loaded over one file of a
+/// cache with a reloader, next to a reloadable witness of the same file; the file is edited and
+/// `hot_reload` called until the witness shows the new content.  The wrappers of the type that opts
+/// out must then still hold the first value, at reload id NEVER; the wrappers of the reloadable type
+/// are the control (they must have followed, or the scenario proves nothing).
+fn wrapper_scenario(ctx: &mut Ctx) {
+    use assets_manager::OnceInitCell;
+    let was = trace_is_enabled();
+    trace_enable(false);
+    for round in 0..3 {
+        let mem = Mem::new_silent(true);
+        mem.write("k", "x", b"1");
+        let cache = AssetCache::with_source(mem.clone());
+        if round == 1 {
+            // the key was loaded, removed and re-created before
+            let mut cache = cache;
+            let _ = cache.load::<OnceInitCell<Option<TIntS>, String>>("k");
+            let _ = cache.load::<Arc<TIntS>>("k");
+            cache.remove::<OnceInitCell<Option<TIntS>, String>>("k");
+            cache.remove::<Arc<TIntS>>("k");
+            wrapper_round(&cache, &mem, ctx, "after remove and re-load");
+        } else if round == 2 {
+            let mut cache = cache;
+            let _ = cache.load::<OnceInitCell<Option<TIntS>, String>>("k");
+            cache.clear();
+            wrapper_round(&cache, &mem, ctx, "after clear and re-load");
+        } else {
+            wrapper_round(&cache, &mem, ctx, "first load");
+        }
+    }
+    let _ = take_ledger();
+    let _ = take_trace();
+    trace_enable(was);
+}
+
+fn wrapper_round(cache: &AssetCache<Mem>, mem: &Mem, ctx: &mut Ctx, what: &str) {
+    use assets_manager::OnceInitCell;
+    let never = assets_manager::verif_hooks::reload_id_raw(assets_manager::ReloadId::NEVER);
+    let (Ok(frozen), Ok(arc), Ok(cell), Ok(ocell), Ok(witness), Ok(control)) = (
+        cache.load::<TIntS>("k"),
+        cache.load::<Arc<TIntS>>("k"),
+        cache.load::<OnceInitCell<TIntS, String>>("k"),
+        cache.load::<OnceInitCell<Option<TIntS>, String>>("k"),
+        cache.load::<TInt>("k"),
+        cache.load::<OnceInitCell<Option<TInt>, String>>("k"),
+    ) else {
+        return;
+    };
+    let show = |v: &mut TIntS| format!("made from {}", v.0.n);
+    let a = cell.read().get_or_init(show).clone();
+    let b = ocell.read().get_or_init(|o| format!("made from {:?}", o.as_ref().map(|v| v.0.n))).clone();
+    let c0 = control.read().get_or_init(|o| format!("made from {:?}", o.as_ref().map(|v| v.0.n))).clone();
+    mem.write("k", "x", b"2");
+    mem.send(vec![assets_manager::source::OwnedDirEntry::File("k".into(), "x".into())]);
+    let t0 = std::time::Instant::now();
+    while witness.read().0.n != 2 && t0.elapsed() < std::time::Duration::from_secs(3) {
+        cache.hot_reload();
+        std::thread::sleep(std::time::Duration::from_millis(2));
+    }
+    if witness.read().0.n != 2 {
+        return; // the witness did not follow: nothing can be concluded from this round
+    }
+    // give the rest of the pass a chance: the control is reloaded in the same pass as the witness
+    cache.hot_reload();
+    let c1 = control.read().get().cloned();
+    if c1.as_deref() == Some(c0.as_str()) {
+        return; // control did not follow either (not a C10 matter)
+    }
+    let rid = |x: usize| x;
+    ctx.wrapper_rounds += 1;
+    let mut bad = vec![];
+    if frozen.read().0.n != 1 || rid(assets_manager::verif_hooks::reload_id_raw(frozen.last_reload_id())) != never {
+        bad.push("the plain opted-out asset".to_string());
+    }
+    if arc.read().0.n != 1 || assets_manager::verif_hooks::reload_id_raw(arc.last_reload_id()) != never {
+        bad.push("Arc<U>".to_string());
+    }
+    if cell.read().get() != Some(&a) || assets_manager::verif_hooks::reload_id_raw(cell.last_reload_id()) != never {
+        bad.push("OnceInitCell<U, T>".to_string());
+    }
+    if ocell.read().get() != Some(&b) || assets_manager::verif_hooks::reload_id_raw(ocell.last_reload_id()) != never {
+        bad.push("OnceInitCell<Option<U>, T>".to_string());
+    }
+    if !bad.is_empty() && ctx.wrapper_violations.len() < 5 {
+        ctx.wrapper_violations.push(format!(
+            "{what}: U opts out of hot-reloading, the file was edited and a reload pass ran (a reloadable witness of the same file followed): rewritten or reload id moved for {}",
+            bad.join(", ")
+        ));
+    }
+}
+
 pub fn run(a: &Args) {
     std::panic::set_hook(Box::new(|_| {}));
     trace_enable(true);
@@ -1410,6 +1506,9 @@ pub fn run(a: &Args) {
     let only: Option<usize> = a.get("only").and_then(|x| x.parse().ok());
     if only.is_none() {
         key_sweep(if a.thorough() { 40000 } else { 4000 }, &mut ctx);
+        if mode != "cold" {
+            wrapper_scenario(&mut ctx);
+        }
     }
     let mut op_hist: std::collections::BTreeMap<String, u64> = Default::default();
     let mut fe_hist: std::collections::BTreeMap<String, u64> = Default::default();
@@ -1548,6 +1647,7 @@ pub fn run(a: &Args) {
             ("handle-changed", &ctx.ident.violations),
             ("value-not-dropped-exactly-once", &ctx.ledger_violations),
             ("key-type-confusion", &ctx.key_violations),
+            ("non-reloadable-rewritten", &ctx.wrapper_violations),
         ] {
             for v in list.iter().take(5) {
                 f.push_str(&format!(
@@ -1565,7 +1665,7 @@ pub fn run(a: &Args) {
     std::fs::write(
         format!("{}/sysdiff.summary.json", a.out),
         format!(
-            "{{\"engine\": \"sysdiff\", \"explain\": {{\"sys_cases\": \"sys_explain\"}}, \"code_classes\": {{\"1\": \"model-disagreement\", \"2\": \"late-bound-stale\", \"3\": \"non-reloadable-rewritten\", \"4\": \"stale-after-pass\"}}, \"evaluations\": {}, \"distinct_nontrivial\": {}, \"samples\": [{}], \"distribution\": {{\"frontends\": {}, \"ops\": {}, \"sequence_length_buckets\": {}, \"outcomes\": {}, \"reload_passes_that_visited_assets\": {}}}}}",
+            "{{\"engine\": \"sysdiff\", \"explain\": {{\"sys_cases\": \"sys_explain\"}}, \"code_classes\": {{\"1\": \"model-disagreement\", \"2\": \"late-bound-stale\", \"3\": \"non-reloadable-rewritten\", \"4\": \"stale-after-pass\"}}, \"evaluations\": {}, \"distinct_nontrivial\": {}, \"samples\": [{}], \"distribution\": {{\"frontends\": {}, \"ops\": {}, \"sequence_length_buckets\": {}, \"outcomes\": {}, \"reload_passes_that_visited_assets\": {}, \"wrapper_rounds_concluded\": {}}}}}",
             n_cases,
             distinct,
             samples.join(", "),
@@ -1573,7 +1673,8 @@ pub fn run(a: &Args) {
             jmap(&op_hist),
             jmap(&len_hist),
             jmap(&out_hist),
-            passes_nonempty
+            passes_nonempty,
+            ctx.wrapper_rounds
         ),
     )
     .unwrap();
